@@ -6,3 +6,5 @@ import LettreVerif.Props.C19
 #print axioms LV.C19.base64_body_linear
 #print axioms LV.C19.xtext_at_most_triples
 #print axioms LV.C19.data_phase_linear
+#print axioms LV.C19.envelope_json_linear
+#print axioms LV.C19.mime_version_short
